@@ -293,3 +293,46 @@ def arms(tier):
 
 REQUIRED_CLASSES = ["merge", "merge:list>=2", "merge:alias", "merge:several-keys", "alias-to:map", "alias-to:maplist", "set",
                     "omap", "pairs", "quoted-merge-key", "complex-key", "well-shaped:with-merge", "well-shaped:with-merge-list>=2", "dup-key"]
+
+
+def _has_alias_entry_in_omap(bp):
+    """An !!omap / !!pairs entry that is an alias (the shared node may have been flattened in place by an earlier use)."""
+    if not isinstance(bp, tuple):
+        return False
+    k = bp[0]
+    if k == "o":
+        if any(e[0] == "a" for e in bp[3]):
+            return True
+        return any(_has_alias_entry_in_omap(e) for e in bp[3])
+    if k in ("q", "ml"):
+        return any(_has_alias_entry_in_omap(c) for c in bp[-1])
+    if k == "m":
+        for pr in bp[3]:
+            if any(_has_alias_entry_in_omap(x) for x in pr[1:] if isinstance(x, tuple)):
+                return True
+    return False
+
+
+def known_class(arm, case, key):
+    if key.startswith("ill-shaped-accepted:") and ("exactly o" in key or "merge key inside" in key) and _has_alias_entry_in_omap(case):
+        return "omap-entry-shape-depends-on-earlier-flattening"
+    return None
+
+
+def pinned_known(key, rec):
+    import yaml
+    if key == "omap-entry-shape-depends-on-earlier-flattening":
+        a = "[&n1 {a: 1, <<: []}, !!omap [*n1]]"        # the mapping is flattened (in place) before the omap looks at it
+        b = "[!!omap [&n1 {a: 1, <<: []}], *n1]"        # the omap looks at it first
+        try:
+            yaml.safe_load(a)
+            first = "accepted"
+        except yaml.YAMLError:
+            first = "rejected"
+        try:
+            yaml.safe_load(b)
+            second = "accepted"
+        except yaml.YAMLError:
+            second = "rejected"
+        return first != second
+    return True
